@@ -13,7 +13,6 @@ import (
 
 	"verif/drv/pbt"
 	"verif/harness/inproc"
-	"verif/harness/lalclient"
 	"verif/ref/rtpref"
 )
 
@@ -125,6 +124,11 @@ func runCust(c CustCase) *pbt.Violation {
 				return pbt.V("customize/packet-refused", "FeedAvPacket of unit %d: %v", i, err)
 			}
 		}
+		if i%syncEvery == syncEvery-1 {
+			if v := x.sync(); v != nil {
+				return v
+			}
+		}
 	}
 	obs, v := x.finish()
 	if v != nil {
@@ -151,7 +155,7 @@ func genCust(t *rapid.T) CustCase {
 }
 
 func classifyCust(c CustCase) (bool, []string) {
-	l := append([]string{"kind:customize"}, streamLabels(&c.S)...)
+	l := append([]string{"kind:customize", combo("customize", &c.S, "n/a")}, streamLabels(&c.S)...)
 	if c.S.Video != "" {
 		if c.AnnexB {
 			l = append(l, "video:annexb")
@@ -189,6 +193,3 @@ func classifyCust(c CustCase) (bool, []string) {
 	}
 	return multi && c.S.Video != "" && c.S.Audio != "", uniq(l)
 }
-
-var _ = inproc.Config{}
-var _ = lalclient.IdleTimeout
